@@ -10,7 +10,8 @@
    overlap: a rule fires only if it is violated for every possible position of the
    reset / tick inside its begin..end interval.
 
-     NoStale     an answer obtained (fetch completed) before a reset began is never
+     NoStale     an answer whose backend fetch began before a reset began (it was asked
+                 of the backend under the configuration before the reload) is never
                  given to a request that started after that reset had ended
      SameKey     an answer comes from a completed fetch for the request's own key
      OneInFlight two fetches for the same key overlap only if a reset could separate
@@ -82,7 +83,7 @@ End(r, v) ==
     /\ r \in DOMAIN req /\ req[r].open
     /\ v \in DOMAIN fet /\ fet[v].ended
     /\ fet[v].key = req[r].key                                      \* SameKey
-    /\ fet[v].eRb >= req[r].sRe                                     \* NoStale
+    /\ fet[v].bRb >= req[r].sRe                                     \* NoStale
     /\ FromCache(r, v) => req[r].sTe - SetMaxTb(v) < TTLTicks       \* Fresh
     /\ MustHit(r) => FromCache(r, v)                                \* MustHit
     /\ req' = [req EXCEPT ![r] = [@ EXCEPT !.open = FALSE, !.val = v, !.eN = n + 1, !.eTb = tb]]
